@@ -75,7 +75,7 @@ def generate(tier, seed, work, stats):
                 cases.append(dict(kind="fst", hist=h, pool=pools[i % 5], family="FSTGen"))
     # grammars: text round trip
     for c in c08.grammar_cases(tier, seed, work, stats, [(2, 2, 3, 2, 4 if q else 1)], [("upper", "ab")]):
-        for names in ("plain", "marked"):
+        for names in ("plain", "marked", "odd"):
             cases.append(dict(kind="cfg", prods=c["prods"], names=names, family=c["family"]))
     # EBNF
     for toks, ml, mt, k in [(("a", "A", "|", "*"), 2, 3, 6 if q else 1), (("a", "(", ")", "A", "$"), 2, 2, 2 if q else 1)]:
@@ -136,6 +136,10 @@ def replay(case):
             cfgh.VAR_POOLS["marked"] = {"S": "S", "A": "a", "B": "bb", "C": "c"}       # lower-case variables need VAR:
             cfgh.TERM_POOLS["marked"] = {"a": "A", "b": "Bb", "c": "c"}              # capitalised terminals need TER:
             g, start, _ = cfgh.make(case["prods"], "marked", "marked")
+        elif case["names"] == "odd":
+            cfgh.VAR_POOLS["oddv"] = {"S": "S", "A": "1st", "B": "_rest", "C": "#x"}    # neither upper- nor lower-case first character
+            cfgh.TERM_POOLS["oddt"] = {"a": "0", "b": "(", "c": "_"}
+            g, start, _ = cfgh.make(case["prods"], "oddv", "oddt")
         else:
             g, start, _ = cfgh.make(case["prods"], "upper", "ab")
         G = cfgh.project(g)
